@@ -124,6 +124,17 @@ impl PriceFeed {
         Ok(true)
     }
 
+    /// Verification hook: public entry to [`update`](Self::update).
+    #[cfg(gmsol_verif)]
+    pub fn verif_update(
+        &mut self,
+        price: &PriceFeedPrice,
+        max_future_excess: u64,
+        idempotent: bool,
+    ) -> Result<bool> {
+        self.update(price, max_future_excess, idempotent)
+    }
+
     /// Get provider.
     pub fn provider(&self) -> Result<PriceProviderKind> {
         PriceProviderKind::try_from(self.provider)
